@@ -178,15 +178,21 @@ class CallMixin:
         c_at = lambda t: z3.substitute(c, (i, t))
         e_at = lambda t: Val(e.sort, tuple(z3.substitute(x, (i, t)) for x in e.t))
         st.assume(n <= src.n)
+        res_j = list_get(res, j)
+        pats_j = [pos(j)] + [t for t in res_j.t[:1] if z3.is_app(t)]
         st.assume(z3.ForAll([j], z3.Implies(z3.And(0 <= j, j < n),
                   z3.And(0 <= pos(j), pos(j) < src.n, c_at(pos(j)),
-                         eq_vals(list_get(res, j), e_at(pos(j))), inv(pos(j)) == j)),
-                  patterns=[pos(j)]))
+                         eq_vals(res_j, e_at(pos(j))), inv(pos(j)) == j)),
+                  patterns=pats_j))
         st.assume(z3.ForAll([j, k], z3.Implies(z3.And(0 <= j, j < k, k < n), pos(j) < pos(k)),
                   patterns=[z3.MultiPattern(pos(j), pos(k))]))
+        # a source item that passes the filter is in the result: triggered by the source item term as well
+        pats_i = [inv(i)]
+        if isinstance(item, Val) and item.t and z3.is_app(item.t[0]) and item.t[0].num_args() > 0:
+            pats_i.append(item.t[0])
         st.assume(z3.ForAll([i], z3.Implies(z3.And(0 <= i, i < src.n, c),
                   z3.And(0 <= inv(i), inv(i) < n, pos(inv(i)) == i)),
-                  patterns=[inv(i)] ))
+                  patterns=pats_i))
         res.comp_info = (src, pos, inv, c, e, i)
         return [(st, res)]
 
@@ -641,7 +647,16 @@ class CallMixin:
                         [i], z3.And(0 <= i, i < v.t[0], z3.Select(v.t[1], i) == y))))]
             raise Unsupported(node, f"{name}({v!r})")
         if name == "sorted":
-            v = self.ev1(a0, st)
+            if isinstance(a0, ast.GeneratorExp):
+                # sorted(<generator>) consumes the generator into a list first: same as sorted([<comprehension>])
+                fake = ast.ListComp(elt=a0.elt, generators=a0.generators)
+                ast.copy_location(fake, a0)
+                r_ = self.ev(fake, st)
+                if len(r_) != 1:
+                    raise Unsupported(node, "forking generator under sorted()")
+                v = r_[0][1]
+            else:
+                v = self.ev1(a0, st)
             if isinstance(v, Val) and isinstance(v.sort, SetSort):
                 v = self.set_enumeration(st, v)
             key = self.ev1(kws["key"], st) if "key" in kws else None
@@ -965,7 +980,8 @@ class CallMixin:
 
     # ---------------------------------------------------------------- contracts
     def lookup_contract(self, name):
-        return self.world.by_method.get(name)
+        fn = getattr(self, "cur_fn", "") or ""
+        return self.world.method_contract(name, fn.split(".")[0] if "." in fn else None)
 
     def apply_contract(self, node, st, c, args, kw):
         w = self.world
@@ -1054,8 +1070,11 @@ class CallMixin:
             cur = st.heap[loc]
             st.heap[loc] = fresh(cur.sort, loc.replace(".", "_"))
         else:
+            # a mutable field of a class: the heap value is one array (object -> component) per component
             cur = st.heap[loc]
-            st.heap[loc] = fresh(cur.sort, "heap_" + "_".join(loc))
+            st.heap[loc] = Val(cur.sort, tuple(z3.Const(fresh_name("heap_" + "_".join(loc)), a.sort()) for a in cur.t))
+            self.written.add(loc)
+            return
         self.assume_wf(st, st.heap[loc])        # a havocked container is still a container (len >= 0, keys distinct)
         self.written.add(loc)
 
